@@ -128,17 +128,21 @@ CHECKS = {
              "VIP is a fake service.",
         ref="DESIGN.md 4 C06"),
     "C08": dict(
-        module="KMGate",
+        module="KMGate + KMAdminCache",
         technique="TLA+ role/target model (TLC) + the same TLC-enumerated probes, judged by the C08 guards (self / admin / "
-                  "admin+U2F / automation admin / automation identity) in the TLC trace monitor",
+                  "admin+U2F / automation admin / automation identity) in the TLC trace monitor ; TLA+ model of the "
+                  "group-administrator verdict cache (TLC exhaustive + as-built negative control), TLC-simulated and "
+                  "systematic histories on the real IsAdminUser path, TLC trace monitor",
         text="For every (actor role: plain, admin, automation admin; session level; target self/other; operation; method) "
              "probe the monitor requires: an effect on another user's profile/tokens only for an administrator, changing or "
              "registering another user's tokens only with a hardware-token factor in the administrator's own session, "
              "listing/adding/deleting users and issuing bootstrap OTPs only for administrators, automation certificates "
              "only by (automation) administrators and only for configured automation identities; effects are observed on "
              "the stored profiles of actor and target.",
-        note="Admin by configured name; the five-minute re-evaluation of group-based admin verdicts (directory-backed) is "
-             "not driven yet - named here as the unbound clause.",
+        note="KMAdminCache: membership changes, directory outages and time (the real admin cache aged by rewriting its "
+             "entries) against a gitdb directory on a local path; a verdict older than the period is re-evaluated while "
+             "the directory answers, the previous verdict stands only while it does not. The LDAP group source is "
+             "exercised as the failing directory only.",
         ref="DESIGN.md 4 C08"),
     "C11": dict(
         module="KMNetblock",
